@@ -46,6 +46,25 @@
 static void reb_tree_get_nearest_neighbour_in_cell(struct reb_simulation* const r, int* collisions_N, struct reb_vec6d gb, struct reb_vec6d gbunmod, int ri, double p1_r,  double* nearest_r2, struct reb_collision* collision_nearest, struct reb_treecell* c);
 static void reb_tree_check_for_overlapping_trajectories_in_cell(struct reb_simulation* const r, int* collisions_N, struct reb_vec6d gb, struct reb_vec6d gbunmod, int ri, double p1_r, double p1_r_plus_dtv, struct reb_collision* collision_nearest, struct reb_treecell* c, double maxdrift);
 
+// Recalculates the two largest particle radii which are used to prune the tree searches.
+// The values set when particles are added become stale if radii are changed later (by the user or by mergers).
+static void reb_collision_update_max_radii(struct reb_simulation* const r){
+    const int N = r->N - r->N_var;
+    double max_radius0 = 0.;
+    double max_radius1 = 0.;
+    for (int i=0;i<N;i++){
+        const double pr = r->particles[i].r;
+        if (pr>=max_radius0){
+            max_radius1 = max_radius0;
+            max_radius0 = pr;
+        }else if (pr>=max_radius1){
+            max_radius1 = pr;
+        }
+    }
+    r->max_radius0 = max_radius0;
+    r->max_radius1 = max_radius1;
+}
+
 void reb_collision_search(struct reb_simulation* const r){
     int N = r->N - r->N_var;
     int Ninner = N;
@@ -242,6 +261,7 @@ void reb_collision_search(struct reb_simulation* const r){
             // Update and simplify tree. 
             // Prepare particles for distribution to other nodes. 
             reb_simulation_update_tree(r);          
+            reb_collision_update_max_radii(r);
 
 #ifdef MPI
             // Distribute particles and add newly received particles to tree.
@@ -312,6 +332,7 @@ void reb_collision_search(struct reb_simulation* const r){
             // Update and simplify tree. 
             // Prepare particles for distribution to other nodes. 
             reb_simulation_update_tree(r);          
+            reb_collision_update_max_radii(r);
 
             // Loop over ghost boxes, but only the inner most ring.
             int N_ghost_xcol = (r->N_ghost_x>1?1:r->N_ghost_x);
